@@ -17,6 +17,7 @@ use super::*;
 //@include prelude/refs_spec.rs
 //@include prelude/resolve_l2.rs
 //@include prelude/cli_spec.rs
+//@include prelude/cli_l2.rs
 } // mod pre
 use pre::*;
 
